@@ -41,6 +41,9 @@ def gen(ctx):
                 frames.append(F(10, rx.payload(rnd, rnd.randint(0, 125), "bin")))
         rx.randomize_encoding(rnd, frames, 0.2, 0.1)
         sts.append(frames)
+    # "every ping": 1300 pings (and pongs) in a row inside one receive call, then the message
+    sts.append([F(9, b"%d" % i) for i in range(1300)] + [F(1, b"done")])
+    sts.append([F(rnd.choice([9, 10]), b"") for i in range(1300)] + [F(9, b"last"), F(2, b"done")])
     return sts
 
 
@@ -108,9 +111,11 @@ def run(ctx):
     sessions, meta = [], []
     for frames in sts:
         stream = b"".join(f.enc() for f in frames)
-        for api in (["recv", "recvdata:1", "rdf:0"] if len(frames) <= 3 else [rnd.choice(["recv", "recvdata:0", "recvdata:1", "rdf:0", "rdf:1"])]):
-            events = [("chunk", stream)] if rnd.random() < 0.7 else [("chunk", stream[i:i + 1]) for i in range(len(stream))]
-            ops = [api] * (len(frames) + 1)
+        long = len(frames) > 1000
+        for api in (["recv", "recvdata:0"] if long else ["recv", "recvdata:1", "rdf:0"] if len(frames) <= 3 else
+                    [rnd.choice(["recv", "recvdata:0", "recvdata:1", "rdf:0", "rdf:1"])]):
+            events = [("chunk", stream)] if long or rnd.random() < 0.7 else [("chunk", stream[i:i + 1]) for i in range(len(stream))]
+            ops = [api] * (2 if long else len(frames) + 1)
             cfg = {"keys": [key] * (len(frames) + 2)}
             if rnd.random() < 0.3:
                 # the transport accepts the pong in pieces (C07_trace holds for every short-write pattern)
